@@ -31,6 +31,10 @@ pub struct InSpec {
     pub asset: u8,
     pub conf: bool,
     pub issuance: Option<IssSpec>,
+    /// spent output with a blinded asset but an explicit amount (non-zero asset blinding factor, zero value
+    /// blinding factor); only meaningful with conf = false
+    #[serde(default)]
+    pub asset_only: bool,
 }
 
 #[derive(Clone, Copy, Debug, Serialize, Deserialize, PartialEq, Eq, Hash)]
@@ -196,10 +200,20 @@ pub fn build(sc: &Scenario) -> Built {
                 AssetBlindingFactor::from_slice(gen::tweak(1100 + i as u64).as_ref()).unwrap(),
                 ValueBlindingFactor::from_slice(gen::tweak(1200 + i as u64).as_ref()).unwrap(),
             )
+        } else if spec.asset_only {
+            (AssetBlindingFactor::from_slice(gen::tweak(1100 + i as u64).as_ref()).unwrap(), ValueBlindingFactor::zero())
         } else {
             (AssetBlindingFactor::zero(), ValueBlindingFactor::zero())
         };
-        let utxo = if spec.conf {
+        let utxo = if spec.asset_only && !spec.conf {
+            TxOut {
+                asset: Asset::new_confidential(s, asset, abf),
+                value: CValue::Explicit(value),
+                nonce: Nonce::Null,
+                script_pubkey: template_script(2, 200 + i as u8),
+                witness: TxOutWitness::default(),
+            }
+        } else if spec.conf {
             TxOut {
                 asset: Asset::new_confidential(s, asset, abf),
                 value: CValue::new_confidential_from_assetid(s, value, asset, vbf, abf),
@@ -323,6 +337,7 @@ pub fn scenarios(thorough: bool, rng_streams: u64) -> Vec<Scenario> {
                         .map(|i| InSpec {
                             asset: assets[i],
                             conf: (cmask >> i) & 1 == 1,
+                            asset_only: false,
                             issuance: match iss {
                                 1 if i == 0 => Some(IssSpec { reissuance: false, amount: 700, tokens: 3 }),
                                 2 if i == n_in - 1 => Some(IssSpec { reissuance: false, amount: 55, tokens: 0 }),
@@ -405,7 +420,7 @@ pub fn magnitude_scenarios() -> Vec<Scenario> {
                         _ => [m, 1],
                     };
                     out.push(Scenario {
-                        inputs: (0..n_in).map(|_| InSpec { asset: 0, conf, issuance: None }).collect(),
+                        inputs: (0..n_in).map(|_| InSpec { asset: 0, conf, issuance: None, asset_only: false }).collect(),
                         outputs: vec![
                             OutSpec { asset: 0, value: vals[0], kind: kinds[0] },
                             OutSpec { asset: 0, value: 1, kind: OutKind::Fee },
@@ -420,11 +435,39 @@ pub fn magnitude_scenarios() -> Vec<Scenario> {
     out
 }
 
+/// Scenarios with spent outputs whose asset is blinded but whose amount is explicit, alone and next to explicit /
+/// confidential ones, one and two assets.
+pub fn asset_only_scenarios() -> Vec<Scenario> {
+    let mut out = Vec::new();
+    for n_in in 1..=3usize {
+        for amask in 0..(1u32 << (n_in - 1)) {
+            // each input: 0 explicit, 1 confidential, 2 asset-only; at least one asset-only
+            crate::engine::product(&vec![3usize; n_in], |kinds| {
+                if !kinds.iter().any(|&k| k == 2) {
+                    return;
+                }
+                let assets: Vec<u8> = (0..n_in).map(|i| if i == 0 { 0 } else { ((amask >> (i - 1)) & 1) as u8 }).collect();
+                let inputs: Vec<InSpec> = (0..n_in).map(|i| InSpec { asset: assets[i], conf: kinds[i] == 1, issuance: None, asset_only: kinds[i] == 2 }).collect();
+                let two = assets.iter().any(|&a| a == 1);
+                for marks in [1u32, 2, 3] {
+                    let mut outputs = vec![
+                        OutSpec { asset: 0, value: 21, kind: if marks & 1 != 0 { OutKind::Marked(2) } else { OutKind::Plain } },
+                        OutSpec { asset: if two { 1 } else { 0 }, value: 34, kind: if marks & 2 != 0 { OutKind::Marked(4) } else { OutKind::Plain } },
+                    ];
+                    outputs.push(OutSpec { asset: 0, value: 3, kind: OutKind::Fee });
+                    out.push(Scenario { inputs: inputs.clone(), outputs, rng_stream: 0 });
+                }
+            });
+        }
+    }
+    out
+}
+
 /// Direct constructor paths: with_txout_secrets + with_secrets_last with caller-chosen secrets.
 fn constructor_path(seed: u64, k: u64) -> Result<(), (String, String)> {
     let s = secp();
     let sc = Scenario {
-        inputs: vec![InSpec { asset: 0, conf: k % 2 == 0, issuance: None }, InSpec { asset: 1, conf: k % 3 == 0, issuance: None }],
+        inputs: vec![InSpec { asset: 0, conf: k % 2 == 0, issuance: None, asset_only: false }, InSpec { asset: 1, conf: k % 3 == 0, issuance: None, asset_only: k % 3 == 1 }],
         outputs: vec![
             OutSpec { asset: 0, value: 40 + k, kind: OutKind::Marked(2) },
             OutSpec { asset: 1, value: 9, kind: OutKind::Marked(3) },
@@ -494,10 +537,11 @@ pub fn run(r: &Report) {
     let mut scs = scenarios(r.tier.thorough(), streams);
     let n_product = scs.len();
     scs.extend(magnitude_scenarios());
+    scs.extend(asset_only_scenarios());
     r.set_rule(
         "scenario product: n_in 1..3 x asset assignment {A,B} x explicit/confidential spent outputs x {no issuance, new issuance with \
          tokens on first input, new issuance on last input, reissuance, token-only issuance} x 1..3(4) free outputs over the assets present x every non-empty \
-         marked subset x fee position (first/middle/last; quick cycles one per marking for >=3 outputs) x rng stream menu; plus 9 value \
+         marked subset x fee position (first/middle/last; quick cycles one per marking for >=3 outputs) x rng stream menu; plus spent outputs with a blinded asset and an explicit amount (every mix with explicit / confidential ones for 1..3 inputs); plus 9 value \
          magnitudes up to 2^63-1 on first/last/plain outputs; plus direct constructor paths. non-trivial = distinct scenarios whose \
          blinded transaction verified and unblinded",
     );
